@@ -1,1 +1,2 @@
+pub mod filter;
 pub mod retryopts;
